@@ -483,7 +483,7 @@ func TestVerifC38(t *testing.T) {
 			runOne(cs)
 		}
 		r := vNewRand(vSeed())
-		n := vN(300, 4000)
+		n := vN(220, 3000)
 		for i := 0; i < n; i++ {
 			runOne(c38Gen(r.Fork()))
 		}
